@@ -5,6 +5,7 @@ import (
 	"math/rand"
 	"strings"
 	"sync"
+	"sync/atomic"
 	"time"
 
 	"github.com/yandex/mysync/internal/config"
@@ -353,18 +354,94 @@ func c10Incidents(u *Unit) {
 	})
 }
 
-func c10Dispatch(u *Unit) {
-	if u.Idx >= tierN(u.Job.Tier, 576, 4608) {
-		c10Incidents(u)
-		return
+// c10Deregistered: the operator stops a replica, removes it from the cluster (mysync host remove) and later starts
+// its server again as a standalone, writable one, while the mysync daemon on that host keeps running - as the manager
+// in half of the units. From two iterations after the removal on no daemon may change anything at that server, and no
+// other daemon may talk to it at all.
+func c10Deregistered(u *Unit) {
+	n := 3 + u.Idx%2
+	hosts := append([]string(nil), haNames[:n]...)
+	master, h := hosts[0], hosts[1]
+	mgrLocal := (u.Idx/2)%2 == 0
+	opts := Opts{HA: hosts, Seed: u.Seed, Workload: true, WorkloadOnly: []string{master}, PreConverged: true,
+		Cfg: func(_ string, c *config.Config) {
+			c.Failover = false
+			c.InactivationDelay = 10 * time.Second
+		}}
+	if mgrLocal {
+		opts.FirstDaemon = h
+	} else {
+		opts.FirstDaemon = hosts[2]
 	}
-	c10Run(u)
+	spec := map[string]any{"family": "deregistered_host_with_running_daemon", "n_ha": n, "manager_on_the_removed_host": mgrLocal}
+	u.Scenario(fmt.Sprintf("c10-%d-deregistered", u.Idx), spec, opts, func(sc *Scen) {
+		s := sc.S
+		w := s.W
+		var removed atomic.Bool
+		w.Lock()
+		w.AfterStmt = append(w.AfterStmt, func(w *world.World, c *world.StmtCtx) {
+			if !removed.Load() || c.Host != h || !strings.HasPrefix(c.Caller, "mysync_") || c.Class == "conn_init" {
+				return
+			}
+			switch {
+			case c.Mut:
+				sc.Violate("C10", "mutating-statement-to-a-deregistered-host:"+c.Class, fmt.Sprintf("%s sent [%s] to %s, which the operator removed from the cluster %v earlier", c.Caller, c.Text, h, "more than two iterations"))
+			case c.Caller != "mysync_"+h:
+				sc.Violate("C10", "statement-to-a-deregistered-host", fmt.Sprintf("%s sent %s to %s, which the operator removed from the cluster more than two iterations earlier", c.Caller, c.Class, h))
+			}
+		})
+		w.Unlock()
+		s.OnZK(func(r fakezk.Rec) {
+			if removed.Load() && isDaemon(s, r.Client) && r.Op == "create" && r.Path == NS+"/recovery/"+h {
+				sc.Violate("C10", "deregistered-host-marked-for-recovery", fmt.Sprintf("%s created recovery/%s for a host that is not registered", r.Client, h))
+			}
+		})
+		s.Start()
+		time.Sleep(22 * time.Second)
+		if in := s.InstByName(lockHolder(s)); in == nil || (in.Host == h) != mgrLocal {
+			sc.Inconclusive("the intended daemon did not get the manager lock")
+			return
+		}
+		w.Crash(h)
+		time.Sleep(3 * time.Second)
+		for _, p := range []string{"ha_nodes/", "cascade_nodes/", "resetup_status/"} {
+			s.ZK.Remove("operator", NS+"/"+p+h)
+		}
+		time.Sleep(13 * time.Second)
+		removed.Store(true)
+		w.Restart(h)
+		w.Manual(h, "operator: standalone writable server", func(x *world.Server) {
+			x.Source, x.IORun, x.SQLRun, x.ReadOnly, x.SuperRO, x.Offline = "", false, false, false, false, false
+			x.Executed.AddRange(x.UUID, 1, 2)
+		})
+		time.Sleep(60 * time.Second)
+		x := w.Snapshot()[h]
+		if x.ReadOnly || x.Source != "" || x.Offline {
+			sc.Violate("C10", "deregistered-host-changed", fmt.Sprintf("%s was removed from the cluster and started as a standalone writable server; a minute later: read_only=%v offline=%v source=%q", h, x.ReadOnly, x.Offline, x.Source), w.Describe())
+		}
+		sc.Cover("deregistered-host-left-alone")
+		sc.Coverf("deregistered|n=%d|mgrlocal=%v", n, mgrLocal)
+		sc.Obs("%s removed from the cluster with its daemon running (manager there: %v), server restarted standalone: read_only=%v source=%q after a minute; active %v", h, mgrLocal, x.ReadOnly, x.Source, s.ActiveNodes())
+	})
+}
+
+func c10Dispatch(u *Unit) {
+	base := tierN(u.Job.Tier, 576, 4608)
+	inc := tierN(u.Job.Tier, 16, 64)
+	switch {
+	case u.Idx >= base+inc:
+		c10Deregistered(u)
+	case u.Idx >= base:
+		c10Incidents(u)
+	default:
+		c10Run(u)
+	}
 }
 
 func init() {
-	register(&Prop{ID: "C10", Units: func(tier string) int { return tierN(tier, 576, 4608) + tierN(tier, 16, 64) }, Run: c10Dispatch,
+	register(&Prop{ID: "C10", Units: func(tier string) int { return tierN(tier, 576, 4608) + tierN(tier, 16, 64) + tierN(tier, 8, 64) }, Run: c10Dispatch,
 		Floor: func(string) []string {
-			f := []string{"stale-master", "aggressive-reset", "permanent-error-of-a-wrong-source", "repeated-incidents"}
+			f := []string{"stale-master", "aggressive-reset", "permanent-error-of-a-wrong-source", "repeated-incidents", "deregistered-host-left-alone"}
 			for _, x := range c10Sources {
 				f = append(f, "source:"+x)
 			}
@@ -376,5 +453,5 @@ func init() {
 			}
 			return f
 		},
-		Rule: "(plus 16 units of 7 separate transient incidents on one replica under one manager, each cured by one START and followed by a healthy period: every incident must be repaired, no reset before the cheaper method was exhausted in that incident) unit = initial state of a 3-4 node cluster: the first non-master node walks the grid read-only x offline x source {none, master, another replica, an unregistered decoy} x threads {running, stopped, IO error, SQL error, error cured by a reset only, permanent error code, permanent error code caused by the current source, applier error recurring even after a reset} x semi-sync flag (384 cells, all in thorough x 4 configurations, a prefix in quick), the other nodes and the master's flags are seeded; optionally every k-th mutating statement fails, and on a third of the shapes the first START REPLICA after a RESET REPLICA ALL fails once (error 1872); a decoy server exists in every run; bounded convergence is judged on ground truth after K iterations, safety clauses at every event; distinct by (configuration, master flags, grid cell, failure schedule)"})
+		Rule: "(plus 8 units in which the operator removes a stopped replica from the cluster while the daemon on that host keeps running - as the manager in half of them - and restarts its server standalone and writable: no daemon changes anything there, no other daemon talks to it, no recovery mark) (plus 16 units of 7 separate transient incidents on one replica under one manager, each cured by one START and followed by a healthy period: every incident must be repaired, no reset before the cheaper method was exhausted in that incident) unit = initial state of a 3-4 node cluster: the first non-master node walks the grid read-only x offline x source {none, master, another replica, an unregistered decoy} x threads {running, stopped, IO error, SQL error, error cured by a reset only, permanent error code, permanent error code caused by the current source, applier error recurring even after a reset} x semi-sync flag (384 cells, all in thorough x 4 configurations, a prefix in quick), the other nodes and the master's flags are seeded; optionally every k-th mutating statement fails, and on a third of the shapes the first START REPLICA after a RESET REPLICA ALL fails once (error 1872); a decoy server exists in every run; bounded convergence is judged on ground truth after K iterations, safety clauses at every event; distinct by (configuration, master flags, grid cell, failure schedule)"})
 }
